@@ -3,12 +3,13 @@
 Copies a confirmed seeded change into /verif/seeded/<ID>-01/ and completes its meta.json."""
 import json, os, shutil, sys
 pid, out, vlog, check, text = sys.argv[1:6]
-dst = f"/verif/seeded/{pid}-01"
+num = sys.argv[6] if len(sys.argv) > 6 else "01"
+dst = f"/verif/seeded/{pid}-{num}"
 os.makedirs(dst, exist_ok=True)
 for f in ("patch.diff", "seed_demo.rs"):
     shutil.copy(os.path.join(out, f), os.path.join(dst, f))
 m = json.load(open(os.path.join(out, "meta.json")))
-m["id"] = f"{pid}-01"
+m["id"] = f"{pid}-{num}"
 m["origin"] = "independent sub-agent given only the property text and a scratch worktree"
 res = [l for l in open(vlog).read().splitlines() if l.startswith("RESULT")]
 m["confirmed_by_me"] = {"script": f"tools/verify_seed.sh /tmp/seed/{pid}-wt /tmp/seed/{pid}-out {m.get('crate')} {m.get('crate_dir','')}".strip(),
